@@ -89,7 +89,7 @@ static struct {
   std::string tag;
   std::vector<std::string> known;
   int verbose = 0;
-  uint64_t max_steps = 2000000;
+  uint64_t max_steps = 20000000;
   int wall_seconds = 60;
   int samples = 3;
   int fresh = 0; // one process per execution (debugging / cross-check of the in-process mode)
